@@ -24,6 +24,17 @@ impl ScriptBH {
         }
         h.finish()
     }
+    /// The word that the overridden `BuildHasher::hash_one` xors into the result of the provided
+    /// method. It lives in the bits of `sh` above the low eight (which are the shift), so that the
+    /// `hasher` header line, the serialised form and the Lean `HashCfg` keep their four fields.
+    pub fn one(&self) -> u64 {
+        ((self.sh >> 8) as u64).wrapping_mul(0x9E3779B97F4A7C15)
+    }
+    /// what `BuildHasher::hash_one(&key)` returns for this hasher (specialising hashers such as ahash
+    /// override `hash_one`; code that must use `hash_one` and re-derives it from `build_hasher` differs)
+    pub fn hash_one_words(&self, words: &[u64]) -> u64 {
+        self.hash_words(words) ^ self.one()
+    }
     pub fn header(&self) -> String {
         format!("hasher {} {} {} {}", self.mul, self.add, self.sh, self.seed)
     }
@@ -43,8 +54,9 @@ impl ScriptHasher {
 
 impl Hasher for ScriptHasher {
     fn finish(&self) -> u64 {
-        if self.cfg.sh < 64 {
-            self.acc ^ (self.acc >> self.cfg.sh)
+        let sh = self.cfg.sh & 0xff;
+        if sh < 64 {
+            self.acc ^ (self.acc >> sh)
         } else {
             self.acc
         }
@@ -75,6 +87,11 @@ impl BuildHasher for ScriptBH {
     type Hasher = ScriptHasher;
     fn build_hasher(&self) -> ScriptHasher {
         ScriptHasher { cfg: *self, acc: self.seed }
+    }
+    fn hash_one<T: std::hash::Hash>(&self, x: T) -> u64 {
+        let mut h = self.build_hasher();
+        x.hash(&mut h);
+        h.finish() ^ self.one()
     }
 }
 
